@@ -88,6 +88,11 @@ def check(run, driver):
                 run.prop_fail("scalar case differs from -1/2 log(1 - r^2) with r the sample partial correlation", case, {**sig, "clause": "scalar"}, {"impl": val, "formula": sc})
         # invariances on the real function
         a = 10.0 ** rng.uniform(-2, 2, size=d) * rng.choice([-1, 1], size=d); b = rng.uniform(-3, 3, size=d)
+        if it % 4 == 3 or (kz == 0 and it % 2 == 1):
+            # "any scales": measurement units such that the columns' spreads lie anywhere between 1e-13 and 1e13,
+            # the first one tiny and the last one huge (offsets of the order of the new unit)
+            tgt = 10.0 ** rng.uniform(-13, 13, size=d); tgt[0] = 10.0 ** rng.uniform(-13, -11); tgt[-1] = 10.0 ** rng.uniform(11, 13)
+            a = tgt / W.std(axis=0) * rng.choice([-1, 1], size=d); b = rng.uniform(-3, 3, size=d) * tgt
         W2 = W * a + b
         v2 = float(gaussian_conditional_mutual_information(W2[:, :kx], W2[:, kx:kx + ky], W2[:, kx + ky:] if kz else None))
         if abs(v2 - val) > TOL(val):
@@ -109,6 +114,26 @@ def check(run, driver):
             if abs(lhs - rhs) > TOL(lhs):
                 run.prop_fail("chain rule I(X;Y,Z) = I(X;Z) + I(X;Y|Z) violated", case, {**sig, "clause": "chain"}, {"lhs": lhs, "rhs": rhs})
         meta.append((case, val)); reqs.append({"op": "gauss_ratio", "W": mat(W), "kx": kx, "ky": ky, "kz": kz})
+    # ---- the same numbers in narrower dtypes (small integers: exactly representable in every one of them) must give the same value
+    for it in range(40 if thorough else 12):
+        kx, ky = int(rng.integers(1, 3)), int(rng.integers(1, 3)); kz = int(rng.integers(0, 3))
+        d = kx + ky + kz; N = int(rng.integers(d + 6, 40))
+        Wi = np.clip(np.round(12 * rng.standard_normal((N, d)) @ (rng.standard_normal((d, d)) * 0.4 + np.eye(d))), -120, 120)
+        if d > 1 and np.linalg.cond(np.corrcoef(Wi.T)) > 1e4:
+            continue
+        sp = lambda A: (A[:, :kx], A[:, kx:kx + ky], (A[:, kx + ky:] if kz else None))
+        base = float(gaussian_conditional_mutual_information(*sp(Wi.astype(np.float64))))
+        ref = float(ls_reference(*sp(Wi.astype(np.float64))))
+        case = {"N": N, "kx": kx, "ky": ky, "kz": kz, "W": Wi}
+        run.case("gaussian-dtypes", [N, kx, ky, kz, Wi[0].tolist()], True)
+        for dt in (np.float32, np.int8, np.int16, np.int32, np.int64, np.float16):
+            A = Wi.astype(dt)
+            v = float(gaussian_conditional_mutual_information(*sp(A)))
+            vd = float(conditional_mutual_information(*sp(A), method="gaussian"))
+            if not np.isfinite(v) or abs(v - ref) > TOL(ref) or abs(v - base) > TOL(base) or abs(vd - max(0.0, base)) > TOL(base):
+                run.prop_fail("the same (exactly representable) numbers in a narrower dtype give a Gaussian information that differs from the closed form beyond 1e-8",
+                              {**case, "dtype": np.dtype(dt).name}, {"estimator": "gaussian", "kz": kz, "clause": "closed_form", "regime": "dtype"}, {"float64": base, np.dtype(dt).name: v, "dispatcher": vd, "reference": ref})
+                break
     # ---- regimes the exact model is too slow for: larger blocks with one shared factor (well conditioned but small determinant)
     #      and columns whose mean is huge compared with their spread; implementation vs the least-squares reference
     for it in range(60 if thorough else 24):
